@@ -60,3 +60,44 @@ def lint_a_fixture_matches() -> bool:
   c = _NullCtx(_FakeIndex())
   lint.lazy_discarded(c, [fixture_module("lint_a.py")])
   return len(c.bads) == 1
+
+
+def pur_fixture_matches(ix) -> bool:
+  """PUR must flag both mutations of `doc`-derived values in fixtures/source_mutation.py."""
+  import ast
+  from .core import FuncInfo
+  from .modelfacts import ModelFacts
+  from .rules import live, pur
+  from .typing_lite import Typer
+  m = fixture_module("source_mutation.py")
+  m.imports["model"] = "ttconv.model"
+  fnode = [n for n in m.tree.body if isinstance(n, ast.FunctionDef)][0]
+  fi = FuncInfo("snapshot", "fixture.source_mutation:snapshot", m, fnode, None, None)
+  fnode._info = fi
+  mf, ty = ModelFacts(ix), Typer(ix)
+  prov = pur.Provenance(ix, [fi], {("fixture.source_mutation:snapshot", "doc"): pur.SOURCE}, mf=mf, ty=ty)
+
+  class _PS:
+    mut = {}
+  c = _NullCtx(ix)
+  c.where = lambda mod, n: "fixture"
+  pur.check_purity(c, prov, [fi], _PS())
+  return len(c.bads) == 2
+
+
+def own_isd_fixture_matches(ix) -> bool:
+  import ast
+  from .core import FuncInfo
+  from .modelfacts import ModelFacts
+  from .rules import pur
+  from .typing_lite import Typer
+  m = fixture_module("isd_owned_timing.py")
+  fnode = [n for n in m.tree.body if isinstance(n, ast.FunctionDef)][0]
+  fi = FuncInfo("make", "fixture.isd_owned_timing:make", m, fnode, None, None)
+  fnode._info = fi
+  prov = pur.Provenance(ix, [fi], {("fixture.isd_owned_timing:make", "isd"): pur.ISDP, ("fixture.isd_owned_timing:make", "element"): pur.SOURCE},
+                        mf=ModelFacts(ix), ty=Typer(ix))
+  c = _NullCtx(ix)
+  c.where = lambda mod, n: "fixture"
+  pur.check_isd_ownership(c, prov, [fi])
+  return len(c.bads) == 1
